@@ -7,7 +7,7 @@ rng = vlib.Rng(seed, "mon-" + profile)
 hits = collections.Counter(); ex = {}
 for i in range(n):
     case, obs, trace = core_gen.generate_and_run(rng, profile)
-    mons = [M.c01(case, trace), M.c02(case, trace, settled=(profile=="settled")), M.c03(case, trace, settled=(profile=="settled")), M.c04(case, trace), M.c05(case, trace), M.c10(case, trace)]
+    mons = [M.c01(case, trace), M.c02(case, trace, settled=(profile in ("settled","settledf"))), M.c03(case, trace, settled=(profile in ("settled","settledf"))), M.c04(case, trace), M.c05(case, trace), M.c10(case, trace)]
     for g in mons:
         for (mon, key, what, step) in g:
             k = (mon, json.dumps(key, sort_keys=True))
